@@ -162,6 +162,18 @@ Proof.
     + cbn [app f_at0]. destruct ip; apply Qeq_bool_iff in H; cbn [snd peval]; rewrite H; ring.
 Qed.
 
+(* ... and the guard is exact on a channel: it holds IFF the denoted voltage at 0 is the first entry's value *)
+Lemma head_ok_exact v0 : forall L prev,
+  head_ok v0 prev L = true <-> f_at0 (FSegs (segs_of prev L) (snd (last_tv L prev))) == v0.
+Proof.
+  induction L as [|[[t v] ip] L IH]; intros prev.
+  - cbn. destruct prev as [pt pv]. cbn. apply Qeq_bool_iff.
+  - cbn [head_ok segs_of]. rewrite last_tv_cons. cbn [fst snd].
+    destruct (Qle_bool (t - fst prev) 0) eqn:E.
+    + cbn [app]. apply IH.
+    + cbn [app f_at0]. destruct ip; cbn [snd peval]; rewrite Qeq_bool_iff; split; intros H; [rewrite H; ring|rewrite <- H; ring|rewrite H; ring|rewrite <- H; ring|rewrite H; ring|rewrite <- H; ring].
+Qed.
+
 Lemma table_chfun_at0 rho D es l f :
   opt_all (map (eval_entry rho) es) = Some l -> table_chfun D l = Some f -> table_head_ok rho D es = true ->
   exists t0 v0 ip0 l', l = (t0, v0, ip0) :: l' /\ f_at0 f == v0.
